@@ -240,7 +240,9 @@ func buildModel(l *Loaded) (*Model, error) {
 					if !isPool {
 						continue
 					}
-					m.PoolVar = v
+					// several pools may exist (scratch stacks, …): the node pool table is the one
+					// whose constructors return the most distinct struct layouts
+					cand := map[int64]*types.Named{}
 					if i < len(vs.Values) {
 						if cl, ok := vs.Values[i].(*ast.CompositeLit); ok {
 							idx := int64(0)
@@ -253,11 +255,17 @@ func buildModel(l *Loaded) (*Model, error) {
 									e = kv.Value
 								}
 								if t := poolNewType(m.Info, e); t != nil {
-									poolTypes[idx] = t
+									if _, isStruct := t.Underlying().(*types.Struct); isStruct {
+										cand[idx] = t
+									}
 								}
 								idx++
 							}
 						}
+					}
+					if m.PoolVar == nil || len(cand) > len(poolTypes) {
+						m.PoolVar = v
+						poolTypes = cand
 					}
 				}
 			}
